@@ -1,12 +1,20 @@
 #!/bin/sh
-# MANIFEST.setup_cmd: full .vo build of the Coq development, offline.
+# MANIFEST.setup_cmd: .vo build (full compilation, no -vos) of everything the claimed checks need, offline.
 set -e
 cd "$(dirname "$0")/.."
 /venv/bin/python - <<'PY'
-import sys
+import importlib, json, os, sys
 sys.path.insert(0, ".")
+sys.path.insert(0, "/repo/src")
 from harness import common
-ok, log = common.ensure_built()
+m = json.load(open("MANIFEST.json"))
+targets = []
+for c in m["checks"]:
+    pid = c["property_id"]
+    mod = importlib.import_module("harness.props." + pid.lower())
+    targets.append("Properties/%s.vo" % pid)
+    targets += [x.replace(".", "/") + ".vo" for x in mod.RUN_MODULE.split()]
+ok, log = common.ensure_built(sorted(set(targets)))
 print("coq build:", "ok" if ok else "FAILED\n" + log)
 sys.exit(0 if ok else 1)
 PY
